@@ -500,5 +500,49 @@ def r02_9(ctx):
     return r
 
 
+def r02_10(ctx):
+    """'A DTLS transport that was given an expected remote fingerprint ...': the transport is given what
+    PeerConnection::start_dtls reads from the cached `remote_dtls_fingerprint`, and that cache is written by
+    set_remote_description. Several remote descriptions can be accepted before DTLS starts (a provisional answer from one
+    callee and the final answer from another; a second offer from a peer with a new certificate): the description in
+    force names the identity, so EVERY accepted description must refresh the cache - not just the first one, and not
+    only while some other piece of state (the DTLS role) is still undecided. Decided: in set_remote_description the
+    cache write is not conditional on the DTLS role, and the function's final Ok return cannot be reached without it."""
+    r = RuleResult("R02.10", "K4", "every accepted remote description refreshes the fingerprint the DTLS transport will be given")
+    fn = "peer_connection::PeerConnection::set_remote_description::{closure#0}"
+    b = ctx.body(fn)
+    r.scope.append(fn)
+    writes = [x[0] for x in core.lock_write_sites(b, "remote_dtls_fingerprint")]
+    r.need("writes of the cached remote fingerprint in set_remote_description", len(writes), 1)
+    oks = core.ok_return_blocks(b)
+    covered = [o for o in oks if core.must_pass(b, o, writes)]
+    if covered:
+        r.ok({"ok_return": b.where(covered[-1]), "passes": "the fingerprint cache write"})
+    else:
+        r.violate(fn, "fp-cache:skippable", b.where(writes[0]),
+                  "set_remote_description can accept a description (return Ok) without refreshing the cached remote fingerprint: the DTLS "
+                  "transport is then given the fingerprint of an EARLIER description and connects to the holder of the superseded certificate")
+    for sb in range(len(b.blocks)):
+        if sb in b.cleanup or b.blocks[sb]["t"]["k"] != "switch":
+            continue
+        term, outs = b.switch_info(sb)
+        if not mir.has_field(term, "dtls_role"):
+            continue
+        for tgt, _lab, meaning in outs:
+            # with this edge removed every cache write must still be reachable: the write does not depend on the role
+            for w in writes:
+                if b.path_to([0], w, cut_edges={(sb, tgt)}) is None:
+                    r.violate(fn, "fp-cache:role-conditional", b.where(sb),
+                              "the cached remote fingerprint is written only on one side of a test of the DTLS role: a later description "
+                              "(role already decided) no longer updates the identity the DTLS transport will check")
+                    break
+            else:
+                continue
+            break
+        else:
+            r.ok({"site": b.where(sb), "role test": "cache write reachable on every edge"})
+    return r
+
+
 def run(ctx):
-    return [r02_1(ctx), r02_2(ctx), r02_3(ctx), r02_4(ctx), r02_5(ctx), r02_6(ctx), r02_7(ctx), r02_8(ctx), r02_9(ctx)]
+    return [r02_1(ctx), r02_2(ctx), r02_3(ctx), r02_4(ctx), r02_5(ctx), r02_6(ctx), r02_7(ctx), r02_8(ctx), r02_9(ctx), r02_10(ctx)]
